@@ -420,6 +420,8 @@ func (p *Parser) parseAmount() *ast.Amount {
 				},
 			}
 			p.advance()
+			amount.Range.End = amount.Commodity.Range.End
+			return amount
 		}
 	}
 
